@@ -45,6 +45,7 @@ def _simplify_primitive(ctx: Ctx) -> None:
     RP.rule_reduce_loop_discipline(ctx)
     RP.rule_simplify_wiring(ctx)
     RP.rule_polytope_roundtrip(ctx)
+    RP.rule_back_conversion_every_row(ctx)
 
 
 def c05(ctx: Ctx) -> None:
@@ -58,6 +59,7 @@ def c01(ctx: Ctx) -> None:
     RP.rule_dispatcher(ctx)
     RP.rule_transform(ctx)
     RK.rule_tactic4_certificate(ctx)
+    RK.rule_context_reduction_certificate(ctx)
     RA.rule_forwarding(ctx)
     RA.rule_default_orders(ctx)
     _simplify_primitive(ctx)
@@ -69,6 +71,7 @@ def c02(ctx: Ctx) -> None:
     RP.rule_dispatcher(ctx)
     RP.rule_transform(ctx)
     RK.rule_tactic4_certificate(ctx)
+    RK.rule_context_reduction_certificate(ctx)
     RA.rule_forwarding(ctx)
     RA.rule_default_orders(ctx)
     _containment_primitive(ctx)
@@ -123,6 +126,7 @@ def c04(ctx: Ctx) -> None:
     RP.rule_polarity(ctx, P + "_get_tlp_context", "refine", True, "none")
     RP.rule_tactic4_sign(ctx)
     RK.rule_tactic4_certificate(ctx)
+    RK.rule_context_reduction_certificate(ctx)
     RP.rule_matrix_provenance(ctx, P + "_tactic_2")
     RP.rule_matrix_provenance(ctx, P + "_get_tlp_context")
     RP.rule_kaykobad_guards(ctx)
@@ -141,6 +145,7 @@ def c07(ctx: Ctx) -> None:
     RS.rule_eq(ctx)
     RP.rule_simplify_wiring(ctx)
     RP.rule_polytope_roundtrip(ctx)
+    RP.rule_back_conversion_every_row(ctx)
     RA.rule_constructor(ctx, RA.POLY)
     RP.rule_lp_bounds(ctx)
 
@@ -153,6 +158,7 @@ def c11(ctx: Ctx) -> None:
     RP.rule_status_table(ctx, P + "is_polytope_empty")
     RP.rule_is_empty_wiring(ctx)
     RP.rule_lp_bounds(ctx)
+    RP.rule_polytope_roundtrip(ctx)
 
 
 def c12(ctx: Ctx) -> None:
@@ -162,6 +168,10 @@ def c12(ctx: Ctx) -> None:
     RP.rule_polarity(ctx, P + "optimize", "maximize", True, "return")
     RP.rule_get_variable_bounds(ctx)
     RP.rule_lp_bounds(ctx)
+    # the LP is posed over  assumptions | guarantees  turned into matrices: union by exact term equality, one row per term
+    RA.rule_tl_operators(ctx)
+    RS.rule_eq(ctx)
+    RP.rule_polytope_roundtrip(ctx)
 
 
 def c09(ctx: Ctx) -> None:
@@ -200,6 +210,10 @@ def c14(ctx: Ctx) -> None:
     RE.rule_validator_covers(ctx)
     RE.rule_validator_types(ctx)
     RE.rule_optional_results(ctx)
+    RE.rule_solver_dict_keys(ctx)
+    RE.rule_division_sites(ctx)
+    # (b) of the division rule rests on: no kernel ever stores a zero coefficient
+    RK.rule_term_kernels(ctx, ["multiply", "add", "remove", "substitute", "isolate", "copy", "rename"])
     RP.rule_dispatcher(ctx)
     RP.rule_decline_discipline(ctx)
     for k in RP.STATUS_TABLES:
@@ -238,6 +252,8 @@ def c03(ctx: Ctx) -> None:
     RP.rule_matrix_provenance(ctx, P + "is_polytope_empty")
     RP.rule_lp_bounds(ctx)
     RA.rule_tl_operators(ctx)
+    RS.rule_eq(ctx)
+    RP.rule_polytope_roundtrip(ctx)
     RA.rule_refines_shape(ctx, RA.GENERIC, "refines", RA.EXPECTED_REFINES, True)
     RA.rule_refines_shape(ctx, RA.GENERIC, "__le__", RA.EXPECTED_REFINES, True)
     RA.rule_refines_shape(ctx, RA.GENERIC, "contains_environment", RA.EXPECTED_ENV, False)
@@ -320,7 +336,10 @@ _reg(
     "every term still mentioning an eliminated variable, refine/relax flags of the two wrappers, every explicit failure inside a tactic is a ValueError, tactic 4 refuses to relax, TACTICS is total over the default orders, "
     "polarity of tactic 2 and of the tactic-5 LP (objective sign = -1 iff refine; the optimum enters with the same sign), tactic 4 admits only rows whose coefficient has the term's sign, Kaykobad row selection skips the term itself / rows with other "
     "eliminated variables and checks the sign condition on every eliminated variable, the kernels isolate/substitute/multiply/add/remove satisfy their laws (isolate∘substitute round trip), and tactic 4 run on symbolic chains of context rows "
-    "(depth 0-2, every sign pattern of the coefficients) returns only terms that, with the rows used, imply the input term by a non-negative combination (this is the rule that exposed defect D12).",
+    "(depth 0-2, every sign pattern of the coefficients) returns only terms that, with the rows used, imply the input term by a non-negative combination (this is the rule that exposed defect D12); "
+    "_context_reduction together with tactic 5's row selection, interpreted with the LP replaced by 'status 0, every context row active' and sympy's solver by its spec, returns only results whose rows enter the combination with the right sign "
+    "(refine: non-negative, relax: non-positive multipliers; defect D13) - and because the reduction checks this for whatever rows it is handed (decided by the same analysis with an arbitrary selection in place of Kaykobad's), "
+    "the Kaykobad selection guards are then not needed for soundness and are only enforced when that analysis fails.",
     ["the Kaykobad inequality itself, the active-set argument of tactic 5 and the adequacy of np.isclose(slack, 0) are numerical and not decided", NUMERIC_LIMIT],
 )
 PROPS["C05"]["technique"] = "static analysis: AST abstract interpretation with uninterpreted constraint predicates (provenance terms), membership truth tables over all topologies, Horn-closure entailment; every primitive outcome forked"
@@ -396,7 +415,9 @@ _reg(
     "static analysis: raise-class census, built-and-dropped exception lint, assert triage by interprocedural def-use taint (solver / file sources) against a reviewed table, dereference coverage of reader and validators, linprog status tables",
     "Decides: every explicit raise names a documented class (ValueError family incl. IncompatibleArgsError, the syntax/convexity errors, ContractFormatError); no exception is constructed without being raised; no assert condition depends on solver output, sympy output or raw file "
     "content (those are findings), every other assert is in the reviewed invariant table; a documented check turned into an assert is recognised against the reference decline table; the file reader checks every entry key before use and validates "
-    "every representation it dispatches on; validators require every key from_dict reads; the dispatcher absorbs exactly ValueError; solver statuses map to documented outcomes.",
+    "every representation it dispatches on; validators require every key from_dict reads; the dispatcher absorbs exactly ValueError; solver statuses map to documented outcomes; every true division has a denominator that is a non-zero literal, "
+    "a stored coefficient of a variable known to occur in the term (with the kernel laws showing that no kernel stores a zero coefficient) or is tested against zero on the way - a number parsed from the constraint string and divided by untested is a violation (defect D14); "
+    "a pyparsing error raised by a parse action is converted by every caller of parse_string; the dictionary sympy's solver returns is read only at keys it is known to have (or after numpy has accepted the same square system).",
     ["exceptions raised inside numpy/scipy/sympy/pyparsing for exotic values (e.g. float(None)) are not modelled", "an assert that is neither tainted nor reviewed is reported as undecidable (exit 2), not as a violation"],
     design_ref="DESIGN.md sections 2.5, 3 (C14)",
 )
